@@ -18,6 +18,9 @@ RULE = ("flw cases: all combinations of present/absent/empty basename and discri
         "trailing dot); non-trivial = at least one rotation and one listing, or a tryfrom path with a dot; distinct = distinct case text")
 
 
+VIA_LOGGER = 0.3   # share of the file-writer histories that is run once more through Logger / LoggerHandle
+
+
 def gen(rng, tier):
     rot = rng.random() < 0.85
     base = rng.choice([b"a", b"app", b"", b"my.prog"])
